@@ -194,9 +194,9 @@ def run(ctx):
         cond = mir.show(c.switch_cond(sw[0]))
         t_true = c.term(be[0])
         t_false = c.term(be[1])
-        det = {"cond": cond, "has prefix": (t_true.get("callee") or "") + "(" + ", ".join(mir.show(c.expr_op(a)) for a in t_true.get("args", [])) + ")",
+        det = {"cond": cond, "has prefix": (t_true.get("callee") or "") + "(" + ", ".join(c.unparam(mir.show(c.expr_op(a))) for a in t_true.get("args", [])) + ")",
                "no prefix": (t_false.get("callee") or "")}
-        ok = MAGIC_HEX in cond and "arg1.0" in cond and det["has prefix"] == "api::eval_to_py(e)" and det["no prefix"].endswith("PyValueError::new_err")
+        ok = MAGIC_HEX in cond and "arg1.0" in cond and det["has prefix"] == "api::eval_to_py($2)" and det["no prefix"].endswith("PyValueError::new_err")
         # polarity: `!starts_with` -> friendly message; so the TRUE edge of starts_with is eval_to_py
     ck.ob("R26c", "api::deser_2026::{closure#0}", ok,
           "audited closure: when the blob has the magic prefix the core error is passed through eval_to_py; only a missing prefix gets the friendlier text",
